@@ -57,6 +57,10 @@ def rule_payload_btc(ctx):
         strict = None
         if a2[0] == 'call' and mir.method_name(a2[1]) in ('unwrap_or_default', 'unwrap_or_else', 'unwrap_or'):
             inner = peel(a2[2][0], calls=False)
+            # Result::map with a value-preserving conversion function item (str::to_owned, String::from, ..)
+            if inner[0] == 'call' and mir.method_name(inner[1]) == 'map' and len(inner[2]) == 2 and peel(inner[2][1])[0] == 'fn' and \
+                    mir.method_name(peel(inner[2][1])[1]) in ('to_owned', 'to_string', 'from', 'into', 'into_owned'):
+                inner = peel(inner[2][0], calls=False)
             if inner[0] == 'call' and mir.method_name(inner[1]) in ('from_utf8', 'from_utf8_lossy', 'from_utf8_unchecked'):
                 strict = (mir.method_name(a2[1]), mir.method_name(inner[1]), canon(inner[2][0]))
         if not strict:
@@ -99,7 +103,9 @@ def rule_payload_fork(ctx):
         if c.startswith('ScriptPattern::OpReturn{'):
             found += 1
             g = util.guards_at(p, d[1])
-            ctx.check('payload_fork', 'lossy-utf8-of-data-token', c == 'ScriptPattern::OpReturn{0: from_utf8_lossy(data(a1[1])?)}', (p, d[1]), c)
+            dpath = set(b2.path for b2 in prog.find('StackElement::data'))
+            ci = canon(prog.inline_only(p.rvalue_expr(d[3]), dpath)) if dpath else c
+            ctx.check('payload_fork', 'lossy-utf8-of-data-token', ci == 'ScriptPattern::OpReturn{0: from_utf8_lossy((a1[1] as Data).0)}', (p, d[1]), ci)
             tm = 'match_stack_pattern(a1, [StackElement::Op{0: 106}, StackElement::Data{0: new()}])'
             ctx.check('payload_fork', 'under-opreturn-template', tm in g, (p, d[1]), 'guards: [OP_RETURN, Data] template')
     ctx.check('payload_fork', 'single-construction', found == 1, p, '%d OpReturn construction(s)' % found)
